@@ -218,7 +218,7 @@ def run(ctx):
     # ---- graph-level action: get_neighbors_decoded / apply_path, encoded and un-encoded, permutation and matrix ----
     gcases, gmetas = [], []
     for gi_ in range(ctx.budget(60, 500)):
-        gd = G.gen_matrix_graph(rng, 300) if gi_ % 3 == 2 else G.gen_graph(rng, cap=300)
+        gd = G.gen_overflow_matrix_graph(rng, 300) if gi_ % 6 == 5 else G.gen_matrix_graph(rng, 300) if gi_ % 3 == 2 else G.gen_graph(rng, cap=300)
         layers, dist = G.ref_bfs(gd, [gd["central"]])
         cfgd = G.gen_config(rng, gd)
         graph = G.make_graph(gd, cfgd)
